@@ -136,7 +136,7 @@ Lemma convert_law P l :
   convert_items P l = Some (map (expand (p_coding P)) l).
 Proof.
   intros Hc Hl HF. unfold convert_items. rewrite Hc.
-  destruct (p_coding P) eqn:E; [congruence | |].
+  destruct (p_coding P) eqn:E; [congruence | |]; unfold convert_table; cbn [coding_eqb].
   - rewrite table_take_bytes by (auto; apply ulaw_table_l). f_equal.
     apply map_ext_in. intros b Hb. rewrite Forall_forall in HF. apply ulaw_table_l. auto.
   - rewrite table_take_bytes by (auto; apply alaw_table_l). f_equal.
@@ -162,12 +162,12 @@ Section Clauses.
   Lemma params_fields :
     p_coding P = h_coding h /\ p_size P = h_size h /\ p_count P = h_count h /\ p_chans P = h_chans h /\
     p_short P = h_short h /\ p_bits P = 8 * h_size h /\ 0 < h_size h /\
-    p_convert P = (h_size h <? dsize (p_dtype P)) && is_law (h_coding h) /\
-    p_be P = (match h_order h with Some o => bytes_eqb o [49; 48] | None => false end) /\
+    p_convert P = convert_rule (h_size h) (dsize (p_dtype P)) (is_law (h_coding h)) /\
+    p_be P = (match h_order h with Some o => bytes_eqb o big_endian_tag | None => false end) /\
     assoc_z (h_size h) in_types = Some (p_bits P, p_signed P) /\
     p_dtype P = match dt with
                 | Some d => d
-                | None => if is_law (h_coding h) then int16
+                | None => if is_law (h_coding h) then law_dtype
                           else {| dk := if p_signed P then KInt else KUint; dsize := h_size h |}
                 end.
   Proof.
@@ -285,7 +285,7 @@ Section Clauses.
     rewrite N, law_items_decode by assumption. rewrite E3, E4.
     rewrite Hsize1 in E8.
     assert (IL : is_law (h_coding h) = true) by (destruct (h_coding h); [congruence | reflexivity | reflexivity]).
-    rewrite IL, andb_true_r in E8.
+    unfold convert_rule in E8. rewrite IL, andb_true_r in E8.
     destruct (1 <? dsize (p_dtype P)) eqn:D.
     - rewrite convert_law; [rewrite E1; reflexivity | assumption | now rewrite E1 | assumption].
     - rewrite convert_plain by assumption. reflexivity.
